@@ -63,6 +63,14 @@ def build_tree(verbose: bool = True) -> Path:
     src = REPO / 'atomman'
     if not src.is_dir():
         raise InfraError(f'{src} not found')
+    # scratch copies left behind by runs that were killed (no atexit): remove those older than three hours
+    try:
+        now = time.time()
+        for d in Path(tempfile.gettempdir()).glob('atomman_verif_*'):
+            if d.is_dir() and now - d.stat().st_mtime > 3 * 3600:
+                shutil.rmtree(d, ignore_errors=True)
+    except Exception:
+        pass
     scratch = Path(tempfile.mkdtemp(prefix='atomman_verif_'))
     atexit.register(shutil.rmtree, scratch, True)
     dst = scratch / 'atomman'
